@@ -713,6 +713,9 @@ impl<'tcx> Extract<'tcx> {
         if tcx.is_mir_available(did) {
             let body = tcx.optimized_mir(did);
             o.push(("body", self.body(body)));
+            // promoted constants (e.g. `&[Position(1), Position(2)]`) live in their own bodies
+            let proms = tcx.promoted_mir(did);
+            o.push(("promoted", J::Arr(proms.iter().map(|b| self.body(b)).collect())));
         } else {
             o.push(("body", J::Null));
         }
